@@ -2,6 +2,7 @@
 import re
 import analyses as A
 import lib
+import witness
 import raft_rules
 import wal_rules
 
@@ -175,6 +176,9 @@ def run(ctx, rep):
     wal_rules.r02b(ctx, rep, ['RaftWal'])
     wal_rules.r02e(ctx, rep, ['RaftWal'])
     r10b_candidates(ctx, rep)
+    if ctx.tier == 'thorough':
+        witness.run(rep, 'R01a', ['RaftPersistentStateIsPrivate', 'RaftWalWriterIsPrivate'])
+
 
 
 def r10b_candidates(ctx, rep):
